@@ -291,6 +291,20 @@ def run(R, tier, seed, driver_ok):
             if auto.shape != (k, d) or not np.array_equal(auto, ref):
                 R.violation(f'init/auto/{rule}', f"init='auto', n_components={nc} with d={d}, n={n}, classes={ncl} is not the '{rule}' initialisation", {'X': X, 'y': y, 'nc': nc})
             add(f'auto_select_init 1 {d} {n} {k} {ncl}', 'str', (f'ok {rule}', 'auto_select_init', {'d': d, 'n': n, 'k': k, 'ncl': ncl}))
+            # every named initialisation has the requested shape — or is rejected by the shape check (only 'lda' asked for
+            # more directions than classes allow may be), never silently another shape
+            for opt in ('pca', 'lda', 'random', 'identity'):
+                R.case(('c20-init-shape', opt, d, nc, ncl, X.tobytes().hex()[:32]), True, branch=f'init-shape-{opt}')
+                try:
+                    with warnings.catch_warnings():
+                        warnings.simplefilter('ignore')
+                        got_ = init_of(init=opt, n_components=nc, random_state=3)
+                except ValueError as e:
+                    if not (opt == 'lda' and k > min(d, ncl - 1)):
+                        R.violation(f'init/{opt}/rejected', f"init={opt!r}, n_components={nc} with d={d}, classes={ncl} raised ValueError: {str(e)[:120]}", {'X': X, 'y': y, 'nc': nc})
+                    continue
+                if got_.shape != (k, d):
+                    R.violation(f'init/{opt}/shape', f"init={opt!r}, n_components={nc} with d={d}, classes={ncl} gave a transformation of shape {got_.shape}, not {(k, d)}", {'X': X, 'y': y, 'nc': nc})
             ident = init_of(init='identity', n_components=nc)
             if not np.array_equal(ident, np.eye(k, d)):
                 R.violation('init/identity', 'identity initialisation is not the (truncated) identity', {'d': d, 'nc': nc})
